@@ -141,6 +141,24 @@ theorem loop_total (e : Env) (fuel : Nat) (s : Sess) (inp : Bytes) (acc : List E
       have := readLine_rest_lt _ _ _ hl
       exact ih _ _ _ (by omega)
 
+/-- the command loop itself never reports a failed handshake: that outcome belongs to `runWire` -/
+theorem loop_not_tlsFail (e : Env) (fuel : Nat) (s : Sess) (inp : Bytes) (acc : List Ev) :
+    (loop e fuel s inp acc).2.2 ≠ .tlsFail := by
+  induction fuel generalizing s inp acc with
+  | zero => simp [loop_zero]
+  | succ fuel ih =>
+    cases iter s inp with
+    | quit h => simp [loop_stop_quit _ _ _ _ _ h]
+    | sendErr h h2 => simp [loop_stop_sendErr _ _ _ _ _ h h2]
+    | dataCut h2 h3 hd => simp [loop_data_cut _ _ _ _ _ h2 h3 hd]
+    | data hs h3 block rest hd =>
+      rw [loop_data _ _ _ _ _ hs h3 block rest hd]
+      exact ih _ _ _
+    | eof h1 h2 h3 hi => subst hi; simp [loop_eof _ _ _ _ h1 h2 h3]
+    | line hq hs h3 line rest hl =>
+      rw [loop_line _ _ _ _ _ hq hs h3 line rest hl]
+      exact ih _ _ _
+
 /-! ### completed data phases, with the ghost envelope -/
 
 /-- the successfully stored copies among some events -/
@@ -435,22 +453,24 @@ theorem flatMap_prefix {α β : Type} (f : α → List β) (l1 l2 : List α) (h 
 /-! ### whole connections -/
 
 /-- the session after the greeting was sent -/
-def start (b : Option Nat) : Sess := send (init b) 1
+def start (e : Env) (b : Option Nat) : Sess := send (initFor e b) 1
 
 theorem run_eq (e : Env) (b : Option Nat) (w : Bytes) :
-    run e b w = loop e (w.length + 2) (start b) w [.reply [220]] := rfl
+    run e b w = loop e (w.length + 2) (start e b) w [.reply [220]] := rfl
 
 /-- the completed data phases of a whole connection -/
-def runPhases (e : Env) (b : Option Nat) (w : Bytes) : List Phase := phases e (w.length + 2) (start b) [] w
+def runPhases (e : Env) (b : Option Nat) (w : Bytes) : List Phase := phases e (w.length + 2) (start e b) [] w
 
 theorem run_stored (e : Env) (b : Option Nat) (w : Bytes) :
     storedOf (run e b w).1 = (runPhases e b w).flatMap (fun ph => storedOf ph.evs) := by
   rw [run_eq, loop_stored e _ _ [] w]
   simp [runPhases]
 
-theorem erase_start (b : Option Nat) : erase (start b) = start none := by
+theorem erase_start (e : Env) (b : Option Nat) : erase (start e b) = start e none := by
   simp [start]; rfl
 
-theorem start_st (b : Option Nat) : (start b).st = .greet := by simp [start, init]
+theorem start_st (e : Env) (b : Option Nat) : (start e b).st = .greet := by simp [start, init, initFor]
+
+theorem start_tls (e : Env) (b : Option Nat) : (start e b).tls = e.forceTLS := by simp [start, init, initFor]
 
 end Ibx.Lemmas.SmtpLoop
